@@ -47,6 +47,7 @@ pub fn run<C: SimCfg>(plan: &Plan, check_distance: usize, frames: u32, expect_re
     };
     let mut game = Game::new();
     game.own_snapshots = cfg.own_snapshots;
+    game.checksum_layout = cfg.checksum_layout;
     let perturb = plan.perturb.first().cloned();
     if let Some(p) = &perturb {
         game.perturb = Some((p.frame, p.mode.clone()));
